@@ -6,7 +6,7 @@ from datetime import timedelta
 from hypothesis import strategies as st
 
 from vlib import gen
-from vlib.runner import Violation, sut
+from vlib.runner import Violation, plain_stack, sut
 
 ID = "C19"
 DETERMINISTIC = True  # pure in-memory functions judged by a pure oracle: see runner (a failure seen once counts)
@@ -17,12 +17,14 @@ RULE = (
     "the transform does not own unchanged; categorize == deepest matching category, last wins ties, ['Uncategorized'] if none; tag == matching tags in rule "
     "order; reference match = non-empty regex found by re.search (IGNORECASE if asked) in some selected value that is a str; split_url_events adds its six keys "
     "iff 'url' is present (component values are not judged: the property does not state them); simplify_string leaves its input unmodified. "
+    "One case in six gives one event an unrelated value nested 120, 600 or 900 levels deep (valid JSON; class 'deeply_nested_value') for categorize, tag and split_url_events. "
     "Non-trivial = two matching rules of equal depth for some event, or select_keys hitting a missing or non-string value."
 )
 ASSUMPTIONS = [
     "rule regexes are valid Python regexes; Python's re is the shared matcher",
     "select_keys=[] is not generated (the property does not say whether an empty selection means everything or nothing)",
     "url values are strings built from a small grammar; title values are strings for simplify_string",
+    "simplify_string is not given the deeply nested values: it copies its input with copy.deepcopy, whose recursion depth is the interpreter's limit, on the unchanged tree too",
 ]
 BASE_US = 1_600_000_000_000_000
 
@@ -100,11 +102,25 @@ def strategy(draw, tier="quick"):
         if sk is not None:
             r["select_keys"] = sk
         rules.append({"cat": draw(st.sampled_from(cats)), "tag": draw(st.sampled_from(["t1", "t2", "work", "fun", "t1"])), "rule": r})
+    # valid JSON data may be nested far deeper than anything a person writes (a dumped page tree, a serialised AST): the annotating
+    # transforms never look inside unrelated values, so the depth of such a value must not matter to them.  Only the depth is drawn;
+    # the value is built in _data.  (simplify_string is left out: it has always worked on copy.deepcopy of its input, see ASSUMPTIONS.)
+    if evs and draw(st.integers(0, 5)) == 0:
+        evs[draw(st.integers(0, len(evs) - 1))]["deep"] = draw(st.sampled_from([120, 600, 900]))
     return {"events": evs, "rules": rules, "simplify_key": draw(st.sampled_from(["title", "title", "k"]))}
 
 
-def _data(e):
+def _deep(n):
+    x = "leaf"
+    for i in range(n):
+        x = [x, i] if i % 2 else {"k": x}
+    return x
+
+
+def _data(e, deep=True):
     d = json.loads(json.dumps(e["data"]))
+    if deep and e.get("deep"):
+        d["blob"] = _deep(e["deep"])
     if e["url"] is not None:
         d["url"] = _url_str(e["url"])
         if e.get("presplit"):
@@ -114,10 +130,10 @@ def _data(e):
     return d
 
 
-def _mk(Event, evs, extra=None):
+def _mk(Event, evs, extra=None, deep=True):
     out = []
     for e in evs:
-        d = _data(e)
+        d = _data(e, deep)
         if extra:
             d.update(extra(e))
         out.append(Event(id=e["id"], timestamp=gen.dt_utc(BASE_US + e["ts_ms"] * 1000), duration=timedelta(microseconds=e["dur_us"]), data=d))
@@ -143,7 +159,7 @@ def _frame(name, evs, datas, out, owned):
         rest_o = {k: v for k, v in o.data.items() if k not in owned}
         rest_d = {k: v for k, v in d.items() if k not in owned}
         if rest_o != rest_d:
-            raise Violation(f"{name} changed unrelated data: {rest_d!r} -> {rest_o!r}")
+            raise Violation(f"{name} changed unrelated data: {repr(rest_d)[:2000]} -> {repr(rest_o)[:2000]}")
 
 
 def run_case(case):
@@ -153,8 +169,9 @@ def run_case(case):
     evs, rules = case["events"], case["rules"]
     datas = [_data(e) for e in evs]
     tie = sel_miss = False
+    deep = any(e.get("deep") for e in evs)
     # ---- categorize
-    with sut("Rule()/categorize"):
+    with sut("Rule()/categorize"), plain_stack(deep):
         out = categorize(_mk(Event, evs), [(r["cat"], Rule(dict(r["rule"]))) for r in rules])
     _frame("categorize", evs, datas, out, {"$category"})
     for d, o in zip(datas, out):
@@ -168,7 +185,7 @@ def run_case(case):
         if o.data.get("$category") != exp:
             raise Violation(f"categorize: data {d!r} rules {rules!r}: $category={o.data.get('$category')!r}, expected {exp!r}")
     # ---- tag
-    with sut("Rule()/tag"):
+    with sut("Rule()/tag"), plain_stack(deep):
         out = tag(_mk(Event, evs), [(r["tag"], Rule(dict(r["rule"]))) for r in rules])
     _frame("tag", evs, datas, out, {"$tags"})
     for d, o in zip(datas, out):
@@ -178,7 +195,7 @@ def run_case(case):
     # ---- the same two transforms reached through the query built-ins (rule dicts instead of Rule objects)
     from aw_query.functions import functions as _qf
 
-    with sut("query built-ins categorize/tag"):
+    with sut("query built-ins categorize/tag"), plain_stack(deep):
         outc = _qf["categorize"](None, {}, _mk(Event, evs), [[list(r["cat"]), dict(r["rule"])] for r in rules])
         outt = _qf["tag"](None, {}, _mk(Event, evs), [[r["tag"], dict(r["rule"])] for r in rules])
     _frame("categorize (query built-in)", evs, datas, outc, {"$category"})
@@ -200,7 +217,7 @@ def run_case(case):
                 if any(not isinstance(d.get(k), str) for k in sk):
                     sel_miss = True
     # ---- split_url_events
-    with sut("split_url_events"):
+    with sut("split_url_events"), plain_stack(deep):
         out = split_url_events(_mk(Event, evs))
     _frame("split_url_events", evs, datas, out, set(URL_KEYS))
     for e, o in zip(evs, out):
@@ -217,8 +234,8 @@ def run_case(case):
     key = case["simplify_key"]
     extra = (lambda e: {}) if key == "title" else (lambda e: {key: e["data"].get("title", "zz")})
     sevs = [e for e in evs if key != "title" or isinstance(e["data"].get("title"), str)]
-    inp = _mk(Event, sevs, extra)
-    sdatas = [dict(_data(e), **extra(e)) for e in sevs]
+    inp = _mk(Event, sevs, extra, deep=False)
+    sdatas = [dict(_data(e, deep=False), **extra(e)) for e in sevs]
     snap = [(x.id, x.timestamp, x.duration, json.dumps(x.data, sort_keys=True)) for x in inp]
     with sut("simplify_string"):
         out = simplify_string(inp, key=key)
@@ -239,4 +256,6 @@ def run_case(case):
         classes.append("empty_regex")
     if any(r["rule"].get("ignore_case") for r in rules):
         classes.append("ignore_case")
+    if any(e.get("deep") for e in evs):
+        classes.append("deeply_nested_value")
     return {"nontrivial": tie or sel_miss, "classes": classes, "evals": 4}
